@@ -370,6 +370,16 @@ func vC41sSites(t *testing.T, strm *stream.Stream) []vC41sSite {
 	return sites
 }
 
+// did the client give a verdict on the certificate (as opposed to a timeout or a network error)?
+func vC41sIsVerdict(msg string) bool {
+	for _, w := range []string{"fingerprint does not match", "x509", "certificate", "tls:", "CRYPTO_ERROR"} {
+		if strings.Contains(msg, w) {
+			return true
+		}
+	}
+	return false
+}
+
 type vC41sFp struct {
 	kind string
 	fp   string
@@ -467,6 +477,7 @@ func TestVerifC41Sites(t *testing.T) {
 	}
 
 	perSite := map[string]int{}
+	retried := 0
 
 	for round := 0; round < rounds; round++ {
 		mk := func(kind string, sp vC41sCertSpec, signed bool, withChain bool) *vC41sServer {
@@ -497,6 +508,10 @@ func TestVerifC41Sites(t *testing.T) {
 				from: now.Add(-48 * time.Hour), to: now.Add(-24 * time.Hour)}, false, false),
 		}
 
+		if !servers[1].caValid("localhost") || !servers[2].caValid("127.0.0.1") || servers[0].caValid("localhost") {
+			t.Fatal("the generated CA is not the process' system root (SSL_CERT_FILE not honoured?): no chain-valid class")
+		}
+
 		for _, site := range sites {
 			for _, srv := range servers {
 				for _, f := range vC41sFps(r, srv, servers, caFp, round) {
@@ -509,14 +524,28 @@ func TestVerifC41Sites(t *testing.T) {
 					if srv == servers[0] {
 						decoy = servers[1].hexfp()
 					}
-					before := srv.ok.Load()
-					msg := site.run(t, host, srv, f.fp, decoy)
-					// a handshake the server completed was counted before the server closed the connection, i.e. before
-					// the client could see the end of the stream; wait for stragglers of this case all the same
-					for i := 0; i < 2000 && srv.inflight.Load() != 0; i++ {
-						time.Sleep(time.Millisecond)
+					// a rejection counts only if the client says it rejected the certificate; anything else (a timeout on a
+					// loaded machine) is no observation: try again, and give up loudly rather than report it
+					var msg string
+					var accepted bool
+					for attempt := 0; ; attempt++ {
+						before := srv.ok.Load()
+						msg = site.run(t, host, srv, f.fp, decoy)
+						// a handshake the server completed was counted before the server closed the connection, i.e. before
+						// the client could see the end of the stream; wait for stragglers of this case all the same
+						for i := 0; i < 2000 && srv.inflight.Load() != 0; i++ {
+							time.Sleep(time.Millisecond)
+						}
+						accepted = srv.ok.Load() > before
+						if accepted || vC41sIsVerdict(msg) {
+							break
+						}
+						retried++
+						if attempt == 3 {
+							t.Fatalf("%s against %s (%s): no handshake seen by the server and no certificate verdict from the client: %q",
+								site.name, srv.kind, host, msg)
+						}
 					}
-					accepted := srv.ok.Load() > before
 
 					match := "fp-not-of-leaf"
 					switch {
@@ -549,4 +578,5 @@ func TestVerifC41Sites(t *testing.T) {
 		}
 	}
 	out.extra["connections_per_call_site"] = perSite
+	out.extra["inconclusive_attempts_retried"] = retried
 }
